@@ -53,6 +53,18 @@ CHECKS.update({
          "Reflection sees every exported field; unexported state does not exist in these types.", "5/C10"),
 })
 
+CHECKS.update({
+ "C12": ("conv", "reference-model monitor: identity converters vs. TS-layout builders/renderers written in /verif; exhaustive PLMN and AMF-id spaces",
+         "All 1.1 M (MCC, MNC) pairs and all 2^24 AMF identifiers in both directions; sampled GUTI / 5G-S-TMSI / SUCI / NAI / PEI identities through the converters, the GUTI5G/TMSI5GS accessors and the MobileIdentity5GS text getters; invalid-text families must give errors.",
+         "Reference layouts from TS 24.501 9.11.3.4, TS 24.008 10.5.1.3, TS 23.003; lower-case hex text.", "5/C12"),
+ "C13": ("conv", "reference-model monitor: library encoders decoded by spec decoders written in /verif; library decoders fed reference encodings",
+         "S-NSSAI (all SST, sampled SD, thorough: two full 2^24 SD sweeps), rejected NSSAI, requested NSSAI with all five variants and malformed lengths, TAI lists of 1..16 over 1..3 PLMNs, service-area lists of 1..16 TACs, LADN information and indication with DNNs of 1..100 octets. Sampled.",
+         "Spec decoders from TS 24.501 9.11.2.8 / 9.11.3.9 / .29 / .30 / .46 / .49; DNN opaque.", "5/C13"),
+ "C14": ("conv", "totality monitor: every short byte string per target under recover() with a crash-surviving journal, memory watchdog and two-stage hang rule",
+         "36 targets × every byte string of length <= 2 (thorough <= 3; text targets over a 40-symbol alphabet) plus generated inputs up to 300 octets; panics, runtime fatals, hangs and unbounded growth are violations. Exhaustive for short inputs, sampled beyond.",
+         "Target list fixed in the harness; element-typed targets get decoder-shaped elements.", "5/C14"),
+})
+
 NOT_YET = {
 }
 
